@@ -261,9 +261,8 @@ impl C13 {
                 }
             }
             Form::File(fault) => {
-                let tag = format!("{:016x}", mix(ctx.out.scenario_digest, dec.digest ^ dec.count));
-                let dir = env.scratch.join(format!("c13-{tag}"));
-                let _ = std::fs::create_dir_all(&dir);
+                let scratch = crate::cli::Scratch::new(&env.scratch, "c13");
+                let dir = scratch.dir.clone();
                 let path = match fault {
                     Fault::None | Fault::OutEfbig(_) => dir.join("g.qgraph"),
                     Fault::OutEnospc => std::path::PathBuf::from("/dev/full"),
@@ -375,7 +374,7 @@ impl C13 {
                         // (no claim: there are no checksums), so nothing more is asserted
                     }
                 }
-                let _ = std::fs::remove_dir_all(&dir);
+                drop(scratch);
             }
         }
         dec
